@@ -272,4 +272,35 @@ class StatsPart:
             ctx.label("only-snvs")
 
 
-PARTS = [StatsPart()]
+class InterleavedPart(StatsPart):
+    """one or two chromosomes, every record a phased heterozygous SNV assigned freely to one of 3-5 phase sets: nested,
+    staggered and multiply interleaved layouts (the hard case for the non-overlapping block lengths)"""
+    name = "interleaved"
+    budget = {"quick": 3200, "thorough": 60000}
+
+    def strategy(self, tier):
+        @st.composite
+        def case(draw):
+            nchrom = draw(st.integers(1, 2))
+            records, truth = [], []
+            for ci in range(nchrom):
+                nsets = draw(st.integers(3, 5))
+                ids = draw(st.lists(st.integers(1, 5000), min_size=nsets, max_size=nsets, unique=True))
+                pos = 0
+                for _ in range(draw(st.integers(6, 16))):
+                    pos += draw(st.integers(1, 300))
+                    sid = draw(st.sampled_from(ids))
+                    gt = draw(st.sampled_from(["0|1", "1|0"]))
+                    records.append({"chrom": "chr%d" % (ci + 1), "pos": pos, "id": None, "ref": "A", "alts": ["C"], "qual": None, "filter": [],
+                                    "info": [], "format": ["GT", "PS"], "calls": [{"GT": gt, "PS": str(sid)}]})
+                    truth.append([{"alleles": tuple(int(x) for x in gt.split("|")), "phased": True, "set": sid, "enc": "PS", "ploidy": 2,
+                                   "gt_phased_flag": True}])
+            model = {"contigs": [["chr%d" % (ci + 1), 100000] for ci in range(nchrom)], "samples": ["s0"], "info_defs": [],
+                     "format_defs": [["GT", "1", "String"], ["PS", "1", "Integer"]], "filters": [], "records": records, "enc": ["PS"]}
+            opts = {"sample": None, "only_snvs": draw(st.integers(0, 5)) == 0, "chromosomes": None, "gtf": draw(st.booleans()),
+                    "indexed": draw(st.integers(0, 3)) == 0}
+            return {"model": model, "truth": truth, "opts": opts}
+        return case()
+
+
+PARTS = [StatsPart(), InterleavedPart()]
